@@ -375,6 +375,9 @@ int main(int argc, char** argv)
             long sf = atol(next());
             long sm = atol(next());
             gsim_ctl::set_limits(sf, sm);
+            // recorded as parameters so that a replay file carries them
+            gsim_ctl::set_param("s_fault", std::to_string(sf).c_str());
+            gsim_ctl::set_param("s_max", std::to_string(sm).c_str());
         } else if (a == "--set") {
             std::string kv = next();
             size_t eq = kv.find('=');
@@ -421,6 +424,8 @@ int main(int argc, char** argv)
         if (const JV* p = root.get("property")) gsim_ctl::set_property(p->str.c_str());
         if (const JV* ps = root.get("params"))
             for (auto& kv : ps->obj) gsim_ctl::set_param(kv.first.c_str(), kv.second.str.c_str());
+        if (gsim::param_int("s_max", 0) > 0)
+            gsim_ctl::set_limits(gsim::param_int("s_fault", 4000), gsim::param_int("s_max", 40000));
         gsim_ctl::replay_begin();
         if (const JV* ks = root.get("knobs"))
             for (auto& kv : ks->obj) gsim_ctl::replay_knob(kv.first.c_str(), (int)kv.second.num);
@@ -506,7 +511,7 @@ int main(int argc, char** argv)
                 gsim_ctl::run_search(w, mix64(base + idx * 0xD1B54A32D192ED03ull));
                 gsim_ctl::RunStats cs = gsim_ctl::last_stats();
                 uint64_t extra[16] = {0};
-                for (int d = 1; d < 9; d++) extra[d] = gsim_ctl::fault_fired(d);
+                for (int d = 1; d < 10; d++) extra[d] = gsim_ctl::fault_fired(d);
                 if (write(pfd[1], &cs, sizeof cs) != (ssize_t)sizeof cs) _exit(2);
                 if (write(pfd[1], extra, sizeof extra) != (ssize_t)sizeof extra) _exit(2);
                 int np = gsim_ctl::probe_count();
@@ -544,7 +549,7 @@ int main(int argc, char** argv)
                         (unsigned long long)idx, code);
                 return 2;
             }
-            for (int d = 1; d < 9; d++) fork_faults[d] += extra[d];
+            for (int d = 1; d < 10; d++) fork_faults[d] += extra[d];
         } else {
             gsim_ctl::run_search(w, mix64(base + idx * 0xD1B54A32D192ED03ull));
         }
@@ -619,7 +624,7 @@ int main(int argc, char** argv)
             first = false;
         }
     printf("},\"faults\":{");
-    for (int d = 1; d < 9; d++)
+    for (int d = 1; d < 10; d++)
         printf("%s\"%s\":%llu", d > 1 ? "," : "", gsim_ctl::dkind_name(d),
                (unsigned long long)(fork_each ? fork_faults[d] : gsim_ctl::fault_fired(d)));
     printf("},\"probes\":{");
